@@ -332,6 +332,11 @@ func (g *c19Gen) fill(v reflect.Value, name string, depth int) bool {
 var c19NodeOnly = map[string]bool{"GetClientStatus": true, "GetBestBlock": true, "GetBlockByHeight": true, "GetBlockStakingReward": true, "GetNetworkBinding": true,
 	"CheckPoolPkCoinbase": true, "CheckTargetBinding": true, "SendRawTransaction": true, "GetTxStatus": true, "GetRawTransaction": true, "QuitClient": false}
 
+// c19WorkBound: a request still running after the watchdog AND after this many storage calls is not
+// slow, it does unbounded work (logical criterion; the accepted requests of the grammar stay below
+// 10 000 calls: import child numbers are ≤ 1000 or refused).
+const c19WorkBound = 200000
+
 type c19Call struct {
 	Layer  string
 	Method string
@@ -341,11 +346,12 @@ type c19Call struct {
 	Err    string
 	Both   bool // neither response nor error
 	Hung   bool
+	Work   int64 // storage calls (wallet + node database) made while the request ran, if it hung
 	Out    []reflect.Value
 }
 
 // invoke calls fn(args) under recover with a watchdog.
-func c19Invoke(layer, method string, fn reflect.Value, args []reflect.Value, desc string) *c19Call {
+func c19Invoke(layer, method string, fn reflect.Value, args []reflect.Value, desc string, work func() int64) *c19Call {
 	c := &c19Call{Layer: layer, Method: method, Args: desc}
 	done := make(chan struct{})
 	var out []reflect.Value
@@ -360,10 +366,12 @@ func c19Invoke(layer, method string, fn reflect.Value, args []reflect.Value, des
 		out = fn.Call(args)
 	}()
 	defer func() { c.Out = out }()
+	w0 := work()
 	select {
 	case <-done:
 	case <-time.After(60 * time.Second):
 		c.Hung = true
+		c.Work = work() - w0
 		return c
 	}
 	if c.Panic != "" {
@@ -427,6 +435,7 @@ type c19Env struct {
 	calls              int
 	lastCall           string
 	extraPass, extraMn []string
+	pendingIDs         []string // txids of unconfirmed transactions delivered to the wallet
 	abort              bool // a request hung: the rest of the session would only wait for its locks
 }
 
@@ -511,6 +520,10 @@ func (e *c19Env) refresh() {
 		p.txids = append(append([]string{}, mine...), other...)
 	}
 	p.txids = append(p.txids, hex.EncodeToString(e.g.r.Bytes(32)))
+	if len(e.pendingIDs) > 12 {
+		e.pendingIDs = e.pendingIDs[len(e.pendingIDs)-12:]
+	}
+	p.txids = append(p.txids, e.pendingIDs...)
 	if len(p.rawHex) > 24 {
 		p.rawHex = p.rawHex[len(p.rawHex)-24:]
 	}
@@ -564,6 +577,10 @@ func (e *c19Env) violate(c *c19Call) {
 	case c.Panic != "":
 		w["panic"], w["stack"] = c.Panic, c.Stack
 		e.t.Violate("panic:"+c.Layer+"."+c.Method+":"+c19TopFrame(c.Stack), fmt.Sprintf("%s.%s panics (%s) on request %s", c.Layer, c.Method, c.Panic, c.Args), w)
+	case c.Hung && c.Work > c19WorkBound:
+		e.abort = true
+		w["storage_calls_so_far"] = c.Work
+		e.t.Violate("request-unbounded-work:"+c.Layer+"."+c.Method, fmt.Sprintf("%s.%s has not answered after %d storage calls (the largest accepted request of the grammar needs a few thousand) and is still running, with the wallet's locks held: request %s", c.Layer, c.Method, c.Work, c.Args), w)
 	case c.Hung:
 		e.abort = true
 		ok, sum, full := c20Structural()
@@ -624,7 +641,7 @@ func (e *c19Env) request() {
 	}
 	desc := c19Desc(req)
 	e.lastCall = "api." + method + " " + desc
-	c := c19Invoke("api", method, m, []reflect.Value{reflect.ValueOf(context.Background()), req}, desc)
+	c := c19Invoke("api", method, m, []reflect.Value{reflect.ValueOf(context.Background()), req}, desc, func() int64 { return wd.W.DB.Seq() + wd.N.Wrap.TotalCalls() })
 	if c.Panic == "" && !c.Hung && c.Err == "" {
 		e.harvest(req.Elem(), c.Out)
 	}
@@ -725,6 +742,12 @@ func (e *c19Env) repair(method string, req reflect.Value) {
 					in = reflect.Append(in, el)
 					n++
 				}
+			}
+			if r.Chance(20) && len(e.pendingIDs) > 0 {
+				el := reflect.New(f.Type().Elem().Elem())
+				el.Elem().FieldByName("TxId").SetString(e.pendingIDs[r.Intn(len(e.pendingIDs))])
+				el.Elem().FieldByName("Vout").SetUint(uint64([]int{0, 1, 2, 3, 7, 300, 1<<32 - 1}[r.Intn(7)]))
+				in = reflect.Append(in, el)
 			}
 			if r.Chance(25) && len(e.pools.txids) > 0 {
 				el := reflect.New(f.Type().Elem().Elem())
@@ -838,9 +861,25 @@ func (e *c19Env) collect() {
 					var stx wire.MsgTx
 					if stx.SetBytes(signed, wire.Packet) == nil {
 						wd.W.DeliverTx(&stx)
+						e.pendingIDs = append(e.pendingIDs, stx.TxHash().String())
 						wd.Logf("recv own pending %s", stx.TxHash().String()[:10])
 					}
 				}
+			}
+		}
+	}
+	// a raw transaction whose input names a known transaction but an output index of the client's choosing
+	if len(e.pools.txids) > 0 {
+		if h, err := wire.NewHashFromStr(e.pools.txids[e.g.r.Intn(len(e.pools.txids))]); err == nil {
+			idx := []uint32{0, 1, 2, 5, 1000, 1<<32 - 1}[e.g.r.Intn(6)]
+			var sh [32]byte
+			copy(sh[:], e.g.r.Bytes(32))
+			htx := sim.Spend([]wire.OutPoint{*wire.NewOutPoint(h, idx)}, nil, []*wire.TxOut{wire.NewTxOut(int64(1000+e.g.r.Intn(100000)), sim.P2WSH(sh))}, e.g.r.Uint64()|1)
+			if e.g.r.Bool() {
+				stripWitness(htx)
+			}
+			if raw, err := htx.Bytes(wire.Packet); err == nil {
+				e.pools.rawHex = append(e.pools.rawHex, hex.EncodeToString(raw))
 			}
 		}
 	}
@@ -1116,6 +1155,7 @@ func c19Case(t *core.T, steps int) {
 			txs := e.hostileTxs(v, v.Tip)
 			for _, tx := range txs {
 				wd.W.DeliverTx(tx)
+				e.pendingIDs = append(e.pendingIDs, tx.TxHash().String())
 				if t.R.Chance(25) {
 					wd.W.DeliverTx(tx)
 				}
